@@ -235,6 +235,25 @@ def run_case(case):
                 res.check(len(set(zip(h["shank"].tolist(), h["row"].tolist(), h["col"].tolist()))) == 384, "dense:sites-once", f"trace_header({ver},{nshank}) repeats a site")
                 dl = neuropixel.dense_layout(version=ver, nshank=nshank)
                 res.check(all(np.array_equal(dl[k], h[k]) for k in dl), "dense:layout", "dense_layout and trace_header disagree")
+                # what a call returns belongs to the caller: editing the returned arrays in place (shifting a probe, re-numbering rows) leaves the NEXT
+                # header / geometry of the same layout untouched
+                keep = {k: np.array(v) for k, v in h.items()}
+                for k in h:
+                    if isinstance(h[k], np.ndarray) and h[k].dtype.kind in "fi":
+                        h[k] += 7
+                for k in dl:
+                    if isinstance(dl[k], np.ndarray) and dl[k].dtype.kind in "fi":
+                        dl[k] -= 3
+                h2 = neuropixel.trace_header(version=ver, nshank=nshank)
+                res.check(all(np.array_equal(h2[k], keep[k]) for k in keep), "dense:shared-arrays", f"trace_header({ver},{nshank}): a header requested after the caller edited an "
+                          f"earlier one in place differs from the canonical layout", counter="caller_owned_results")
+                gkeep = {k: np.array(v) for k, v in g.items()}
+                for k in g:
+                    if isinstance(g[k], np.ndarray) and g[k].dtype.kind in "fi":
+                        g[k] += 11
+                g2 = spikeglx.geometry_from_meta(spikeglx.read_meta_data(f), sort=False)
+                res.check(all(np.array_equal(g2[k], gkeep[k]) for k in gkeep), "geometry:shared-arrays", f"{kind}: a geometry derived after the caller edited an earlier one in place differs",
+                          counter="caller_owned_results")
                 nt += 1
             except Exception as e:
                 res.exception("dense:exception", e, f"version {ver} nshank {nshank}")
